@@ -628,21 +628,19 @@ VariableManager::extract_array_indices(const ASTNode *node) {
         return indices;
     }
 
+    // 左側に更なる配列アクセスがあれば先に評価する。
+    // m[i][j] は ARRAY_REF(ARRAY_REF(m, i), j) なので、左側（内側）の
+    // インデックス式がソース上で先に現れる。左から右の順に評価する。
+    if (node->left && node->left->node_type == ASTNodeType::AST_ARRAY_REF) {
+        indices = extract_array_indices(node->left.get());
+    }
+
     // 現在のインデックスを評価
     if (node->array_index) {
         int64_t index =
             interpreter_->expression_evaluator_->evaluate_expression(
                 node->array_index.get());
         indices.push_back(index);
-    }
-
-    // 左側に更なる配列アクセスがあるかチェック
-    if (node->left && node->left->node_type == ASTNodeType::AST_ARRAY_REF) {
-        std::vector<int64_t> left_indices =
-            extract_array_indices(node->left.get());
-        // 左側のインデックスを先頭に挿入
-        indices.insert(indices.begin(), left_indices.begin(),
-                       left_indices.end());
     }
 
     return indices;
